@@ -1,66 +1,112 @@
-"""C04 stream `order`: several real writer threads commit concurrently; every subscriber must be handed the
-reports in non-decreasing MdibVersion order (and each report carries the version of its commit)."""
+"""C04 stream `order`: writer threads commit transactions of EVERY kind (metric, alert, component, operational,
+context, rt_sample, descriptor) concurrently; two subscribers.
+
+Phase 1 (deterministic schedules): for every pair (kind of writer A, kind of writer B) and every point at which A takes
+a free MDIB lock or has just released one, B is started exactly there (lock proxies, c04_common.Sched); if B has to wait
+for a lock A holds it runs as soon as A releases it, while A waits - so "B commits and sends between A's release and
+A's (late) send" is exercised on purpose and not left to thread timing.
+Phase 2: free-running threads.
+
+Output: what every commit changed (recorded inside the commit, per MdibVersion) and what every subscriber was handed,
+in arrival order, parsed with the real validating reader.  The oracle is in props/c04.py."""
 import json
-import re
 import sys
 import threading
-from decimal import Decimal
 
 import mdibrun
 mdibrun.preimport()
 from world import World  # noqa: E402
 
+import c04_common as cc  # noqa: E402
+
 req = json.load(sys.stdin)
+_stdout, sys.stdout = sys.stdout, sys.stderr
 w = World(async_subscriptions=False)
 cons1 = w.add_consumer()
 cons2 = w.add_consumer()
 pm = w.provider.mdib
 pm.pre_commit_handler = None
 pm.post_commit_handler = None
-handles = req['handles']
-nthreads, ntx = req.get('threads', 4), req.get('tx', 12)
+canon = mdibrun.Canon()
+sch = cc.Sched()
+cc.install_locks(pm, sch)
+rec = cc.Recorder(pm, canon)
+nthreads, ntx = req.get('threads', 4), req.get('tx', 14)
+wr = cc.Writers(pm, req['inv'], nslots=max(nthreads, 4))
 errors = []
+counter = [0]
 
 
+def next_n():
+    counter[0] += 1
+    return counter[0] * 2 + (counter[0] // 7) % 2     # both parities for every kind over time
+
+
+wr.setup()
+# ---------------------------------------------------------------- phase 1: deterministic schedules
+schedules = []
+kinds_a = req.get('kinds_a', list(cc.KINDS))
+kinds_b = req.get('kinds_b', list(cc.KINDS))
+for ia, ka in enumerate(kinds_a):
+    for ib, kb in enumerate(kinds_b):
+        target = 0
+        while True:
+            na, nb = next_n(), next_n()
+            fired = []
+
+            def on_yield(idx, when, name, target=target, kb=kb, nb=nb, ib=ib, fired=fired):
+                if sch.b is None and idx == target:
+                    fired.append(f'{when}-{name}')
+                    sch.spawn(lambda: wr.tx(kb, ib + 1, nb))
+                elif sch.b is not None and when == 'post':
+                    sch.wait_b(name)
+
+            v_before = len(rec.order)
+
+            def run_a(ka=ka, na=na, ia=ia, on_yield=on_yield):
+                sch.watch(threading.get_ident(), on_yield)
+                try:
+                    wr.tx(ka, ia, na)
+                except Exception as ex:  # noqa: BLE001
+                    errors.append(f'writer A ({ka}): {ex!r}'[:300])
+                finally:
+                    sch.unwatch()
+            ta = threading.Thread(target=run_a, name='A')
+            ta.start()
+            ta.join(60)
+            if sch.b is not None:
+                sch.b['thread'].join(60)
+            npoints = sch.n
+            schedules.append({'a': ka, 'b': kb, 'point': target, 'at': fired[0] if fired else None,
+                              'points_of_a': list(sch.points), 'versions': rec.order[v_before:],
+                              'by': [rec.commits[v]['thread'] for v in rec.order[v_before:]]})
+            sch.b = None
+            target += 1
+            if target >= npoints or ta.is_alive():
+                break
+errors.extend(sch.errors)
+n_sched_commits = len(rec.order)
+
+
+# ---------------------------------------------------------------- phase 2: free-running writer threads
 def worker(k):
     try:
         for i in range(ntx):
-            kind = (k + i) % 3
-            if kind == 0:
-                with pm.metric_state_transaction() as tr:
-                    s = tr.get_state(handles[k % len(handles)])
-                    if s.MetricValue is None:
-                        s.mk_metric_value()
-                    s.MetricValue.Value = Decimal(k * 1000 + i)
-            elif kind == 1:
-                with pm.component_state_transaction() as tr:
-                    s = tr.get_state(req['comp'][k % len(req['comp'])])
-                    s.OperatingHours = k * 1000 + i
-            else:
-                with pm.descriptor_transaction() as tr:
-                    d = tr.get_descriptor(handles[k % len(handles)])
-                    d.SafetyClassification = list(pm.data_model.pm_types.SafetyClassification)[(k + i) % 4]
+            wr.tx(cc.KINDS[(k + i) % len(cc.KINDS)], k, 100000 + k * 1000 + i)
     except Exception as ex:  # noqa: BLE001
-        errors.append(repr(ex)[:300])
+        errors.append(f'thread {k}: {ex!r}'[:300])
 
 
-threads = [threading.Thread(target=worker, args=(k,)) for k in range(nthreads)]
+threads = [threading.Thread(target=worker, args=(k,), name=f'T{k}') for k in range(nthreads)]
 for t in threads:
     t.start()
 for t in threads:
-    t.join(120)
-out = {'errors': errors, 'final_version': pm.mdib_version, 'subscribers': {}}
-for cons in (cons1, cons2):
-    netloc = cons._verif_server.netloc
-    seq = []
-    for ex in w.net.log:
-        if ex.netloc == netloc and ex.method == 'POST':
-            body = ex.decoded_body()
-            m = re.search(rb'MdibVersion="(\d+)"', body)
-            a = re.search(rb'Action>([^<]+)<', body)
-            if m:
-                seq.append([int(m.group(1)), a.group(1).decode().rsplit('/', 1)[-1] if a else '?', ex.status])
-    out['subscribers'][netloc] = seq
-    out.setdefault('consumer_versions', []).append(None)
+    t.join(180)
+errors.extend(rec.problems)
+out = {'errors': errors, 'final_version': int(pm.mdib_version), 'seq': pm.sequence_id, 'inst': pm.instance_id,
+       'commits': {str(v): rec.commits[v] for v in rec.order}, 'commit_order': rec.order,
+       'scheduled_commits': n_sched_commits, 'schedules': schedules,
+       'subscribers': {c._verif_server.netloc: cc.arrivals(w, c, canon) for c in (cons1, cons2)}}
 w.stop()
+sys.stdout = _stdout
 print(json.dumps(out))
